@@ -524,13 +524,18 @@ def write_requirements_file(
                     comment.write(" ")
                 comment.write(str(ExplanationRender(node, multiline)))
 
-            if urls and node.metadata.candidate.link is not None:
+            link = node.metadata.candidate.link if urls else None
+            if link is not None and link[1] is not None:
+                if link[0] and urllib.parse.urlsplit(link[0]).scheme:
+                    full_link = urllib.parse.urljoin(link[0], link[1])
+                else:
+                    # A local location (find-links directory, link read back from
+                    # a solution): the second element is already the complete path.
+                    full_link = link[1]
                 if multiline:
                     comment.write("\n    # ")
                 else:
                     comment.write(" ")
-                link = node.metadata.candidate.link
-                full_link = urllib.parse.urljoin(link[0], link[1])
                 comment.write(full_link)
 
             if comment.getvalue():
